@@ -40,6 +40,22 @@ def patterns():
     P["res-chunk-size-lines"] = (lambda k: (rq, RES + b"Transfer-Encoding: chunked\r\n\r\n" + b"1\r\nx\r\n" * k + b"0\r\n\r\n"), "res", None)
     P["res-empty-chunk-lines"] = (lambda k: (rq, RES + b"Transfer-Encoding: chunked\r\n\r\n" + b"\r\n" * k + b"1\r\nx\r\n0\r\n\r\n"), "res", None)
     P["res-chunk-line-blanks-digits"] = (lambda k: (rq, RES + b"Transfer-Encoding: chunked\r\n\r\n" + b" " * k + b"0" * k + b"1\r\nx\r\n0\r\n\r\n"), "res", "Q")
+    CH = b"POST / HTTP/1.1\r\nHost: a\r\nTransfer-Encoding: chunked\r\n\r\n"
+    P["req-empty-chunk-lines"] = (lambda k: (CH + b"\r\n" * k + b"1\r\nx\r\n0\r\n\r\n", b""), "req", None)
+    P["req-chunk-line-blanks-digits"] = (lambda k: (CH + b" " * k + b"0" * k + b"1\r\nx\r\n0\r\n\r\n", b""), "req", None)
+    P["req-chunk-extension"] = (lambda k: (CH + b"1;" + b"e" * k + b"\r\nx\r\n0\r\n\r\n", b""), "req", None)
+    P["req-trailer-lines"] = (lambda k: (CH + b"1\r\nx\r\n0\r\n" + b"T0: v\r\n" * k + b"\r\n", b""), "req", None)
+    P["req-header-colons"] = (lambda k: (REQ_HEAD % b"" + b"H" + b":" * k + b"v\r\n\r\n", b""), "req", None)
+    P["req-path-segments"] = (lambda k: (REQ_HEAD % (b"a/../" * k) + b"\r\n", b""), "req", None)
+    P["req-path-escapes"] = (lambda k: (REQ_HEAD % (b"%2e%2F%u0041" * k) + b"\r\n", b""), "req", None)
+    P["req-pipelined"] = (lambda k: ((REQ_HEAD % b"" + b"\r\n") * k, b""), "req", None)
+    P["res-chunk-extension"] = (lambda k: (rq, RES + b"Transfer-Encoding: chunked\r\n\r\n1;" + b"e" * k + b"\r\nx\r\n0\r\n\r\n"), "res", None)
+    P["res-trailer-lines"] = (lambda k: (rq, RES + b"Transfer-Encoding: chunked\r\n\r\n1\r\nx\r\n0\r\n" + b"T0: v\r\n" * k + b"\r\n"), "res", None)
+    P["res-interim-100"] = (lambda k: (rq, b"HTTP/1.1 100 Continue\r\n\r\n" * k + RES + b"Content-Length: 0\r\n\r\n"), "res", None)
+    P["res-empty-lines-before-status"] = (lambda k: (rq, b"\r\n" * k + RES + b"Content-Length: 0\r\n\r\n"), "res", None)
+    P["res-status-line-spaces"] = (lambda k: (rq, b"HTTP/1.1" + b" " * k + b"200 OK\r\nContent-Length: 0\r\n\r\n"), "res", None)
+    P["res-header-whitespace"] = (lambda k: (rq, RES + b"H:" + b" " * k + b"v\r\nContent-Length: 0\r\n\r\n"), "res", None)
+    P["res-close-delimited-lines"] = (lambda k: (rq, RES + b"\r\n" + b"line\r\n" * k), "res", None)
     P["res-identity-body"] = (lambda k: (rq, RES + b"Content-Length: %d\r\n\r\n" % (8 * k) + b"abcdefgh" * k), "res", None)
     return P
 
